@@ -179,6 +179,8 @@ def rand_calls(rng, maxlen=30, valid_bias=0.8):
             calls.append({"op": rng.choice(["add_string", "add_encoded_string"]), "s": str_codes(s), "_py": s})
         else:
             s = rand_str(rng, 8)
+            if rng.random() < 0.04:
+                s = "".join(rng.choice("abcdefgh XYZ.,") for _ in range(rng.choice([255, 256, 257, 258, 300])))      # beyond one byte / the interned small integers
             padded = rng.random() < 0.5
             if rng.random() < valid_bias:
                 ln = len(s) + (rng.randrange(0, 5) if padded else 0)
